@@ -106,9 +106,15 @@ func applyJSON(doc document.Document, entry interface{}) (result document.Docume
 		return nil, err
 	}
 
-	docBytes, err = jsonPatches.Apply(docBytes)
-	if err != nil {
-		return nil, err
+	// the patch library moves and copies values without duplicating them: after {"op":"copy","from":"/a","path":"/b"}
+	// both members hold the same node, and a second operation copying /b into /a/x would make that node a member of
+	// itself (serialising a cyclic document overflows the stack). Applying the operations one by one through the
+	// serialised document keeps their values independent.
+	for i := range jsonPatches {
+		docBytes, err = jsonPatches[i : i+1].Apply(docBytes)
+		if err != nil {
+			return nil, err
+		}
 	}
 
 	return document.FromBytes(docBytes)
